@@ -157,8 +157,8 @@ def worker(ns, items, res, opts):
                 store.objects = {}
                 for k, d in enumerate(docs):
                     p = os.path.join(tmp, f'r{k}.mos.xml')
-                    with open(p, 'w', encoding='utf-8') as f:
-                        f.write(d)
+                    with open(p, 'wb') as f:
+                        f.write(coll.to_bytes(d))
                     paths.append(p)
                     store.put('rb', f'r{k}.mos.xml', d)
                 readers = ([('from_string', ns.mc.MosReader.from_string(d)) for d in docs] +
@@ -178,6 +178,18 @@ def worker(ns, items, res, opts):
                         prob = ('restorations-differ', 'two restorations serialise differently')
                     elif direct is None or str(direct) != str(o1) or type(direct) is not type(o1):
                         prob = ('differs-from-original', 'restored object differs from a direct parse of the original text')
+                    else:
+                        # what is done to one restored object must not show in the next restoration
+                        try:
+                            if type(o1).__name__ == 'RunningOrder':
+                                o1 + ns.mt.MosFile.from_string(gen.msg_story_append([gen.story_xml('G', 0)], msg_id=9000))
+                            for el in list(o1.base_tag)[:2]:
+                                el.text = 'scribbled'
+                        except Exception:  # noqa
+                            pass
+                        o3 = mr.mos_object
+                        if str(o3) != str(direct):
+                            prob = ('restoration-sees-earlier-changes', 'a restored object was changed (merged into / edited); the next restoration is no longer equal to the original')
                     if prob:
                         explore.add_simple_finding(res, prop, f'reader:{how}:{prob[0]}', f'MosReader.{how} over {list(seq)}: {prob[1]}', sequence=list(seq))
                         break
